@@ -82,13 +82,46 @@ class Sampler(object):
     where a scalar sampler is defined (NaN elsewhere): None = everywhere,
     ('lat_gt', v), ('lat_le', v), ('lon_band', k)."""
 
-    def __init__(self, kind, a, b, c, region=None):
+    def __init__(self, kind, a, b, c, region=None, view=0):
         self.kind = kind
         self.a, self.b, self.c = a, b, c
         self.region = region
+        self.view = view        # 1: hand out a read-only array; 2: a non-contiguous, non-owning view
 
     def __call__(self, lon, lat):
+        out = self._values(lon, lat)
+        if self.view == 1:
+            out.setflags(write=False)
+        elif self.view == 2:
+            big = np.empty((out.shape[0], out.shape[1] * 2) + out.shape[2:], dtype=out.dtype)
+            big[:, ::2] = out
+            out = big[:, ::2]
+        return out
+
+    def _values(self, lon, lat):
         base = self.a * np.sin(lon * 3.0) + self.b * lat + self.c + np.cos(lat * 5.0 + lon)
+        if self.kind == "U8":
+            return np.floor((np.sin(lon * self.a) * 0.5 + 0.5) * 250.0 + 1.0).astype(np.uint8)
+        if self.kind == "RGBA":
+            # colour with an alpha plane: alpha 0 = undefined (whatever the colour bytes say); colour bytes may be 0 in
+            # defined pixels (black sky, blue ocean) and alpha may be anything from 1 to 255 there
+            out = np.empty(lon.shape + (4,), dtype=np.uint8)
+            out[..., 0] = np.where(np.floor(lon * 2.0).astype(np.int64) % 2 == 0, 0, np.floor((np.sin(lon * self.a) * 0.5 + 0.5) * 255.0)).astype(np.uint8)
+            out[..., 1] = np.where(lat > 0.3, 0, np.floor((lat / math.pi + 0.5) * 255.0)).astype(np.uint8)
+            out[..., 2] = np.floor((np.cos(lon * self.b + lat) * 0.5 + 0.5) * 255.0).astype(np.uint8)
+            alpha = np.full(lon.shape, 255, dtype=np.uint8)
+            if int(self.a) % 2 == 0:
+                alpha = (1 + np.floor((np.sin(lat * 7.0) * 0.5 + 0.5) * 254.0)).astype(np.uint8)
+            r = self.region
+            if r is not None:
+                if r[0] == "lat_gt":
+                    alpha[~(lat > r[1])] = 0
+                elif r[0] == "lat_le":
+                    alpha[lat > r[1]] = 0
+                elif r[0] == "lon_band":
+                    alpha[np.floor(lon * r[1]).astype(np.int64) % 2 == 0] = 0
+            out[..., 3] = alpha
+            return out
         if self.kind == "RGB":
             out = np.empty(lon.shape + (3,), dtype=np.uint8)
             out[..., 0] = np.floor((np.sin(lon * self.a) * 0.5 + 0.5) * 255.0).astype(np.uint8)
@@ -110,9 +143,17 @@ class Sampler(object):
 def merge_expected(old, new):
     """Update semantics in display orientation: defined new pixels replace; RGB always replaces."""
     if old is None:
-        return new
+        if new.ndim == 3 and new.shape[2] == 4:
+            old = np.zeros_like(new)        # a fresh maskable RGBA buffer
+        else:
+            return new
     if new.dtype.kind == "f":
         return np.where(np.isnan(new), old, new)
+    if new.ndim == 3 and new.shape[2] == 4:
+        out = old.copy()
+        ok = new[..., 3] != 0
+        out[ok] = new[ok]
+        return out
     return new
 
 
@@ -122,15 +163,20 @@ def run_one(ch, env):
     if depth == 3 and ch.draw(4, kind="depth3_rare") != 0:
         depth = 1
     coordsys = (ToastCoordinateSystem.ASTRONOMICAL, ToastCoordinateSystem.PLANETARY)[ch.draw(2, kind="coordsys")]
-    kind = ("F32", "F64", "RGB")[ch.draw(3, kind="sampler_kind")]
-    if kind == "RGB":
+    kind = ("F32", "F64", "RGB", "U8", "RGBA")[ch.draw(5, kind="sampler_kind")]
+    if kind == "U8" and update:
+        kind = "F32"        # 8-bit scalar samplers: clobbering mode only (integer updates keep the larger value)
+    view = ch.draw(3, kind="sampler_output_view")
+    if kind == "U8":
+        default_fmt = "npy"
+    elif kind in ("RGB", "RGBA"):
         default_fmt = ("png", "npy")[ch.draw(2, kind="fmt")]
     else:
         default_fmt = ("npy", "fits")[ch.draw(2, kind="fmt")]
     override = None
     if not update and ch.draw(4, kind="format_override") == 3:
         # same vertical parity only
-        override = {"png": "npy", "npy": "npy" if kind != "RGB" else "png", "fits": "fits"}[default_fmt]
+        override = {"png": "npy", "npy": "npy" if kind not in ("RGB", "RGBA") else "png", "fits": "fits"}[default_fmt]
     fmt = override or default_fmt
     workers = (2, 1, 3, 4)[ch.draw(4, kind="workers")]
     prior = ch.draw(3, kind="prior_state") == 2
@@ -151,12 +197,12 @@ def run_one(ch, env):
     b = 0.5 + ch.draw(4, kind="sampler_b")
     lat0 = (0.0, 0.4, -0.7)[ch.draw(3, kind="lat0")]
     if concurrent:
-        samplers = [Sampler(kind, a, b, 3.0, ("lat_gt", lat0)), Sampler(kind, a + 1, b, -2.0, ("lat_le", lat0))]
+        samplers = [Sampler(kind, a, b, 3.0, ("lat_gt", lat0), view), Sampler(kind, a + 1, b, -2.0, ("lat_le", lat0), view)]
     elif update and kind != "RGB":
         region = (None, ("lat_gt", lat0), ("lon_band", 4.0))[ch.draw(3, kind="region")]
-        samplers = [Sampler(kind, a, b, 3.0, region)]
+        samplers = [Sampler(kind, a, b, 3.0, region, view)]
     else:
-        samplers = [Sampler(kind, a, b, 3.0, None)]
+        samplers = [Sampler(kind, a, b, 3.0, None, view)]
     prior_sampler = Sampler(kind, a + 2.5, b + 1.0, 11.0, ("lon_band", 3.0) if kind != "RGB" and ch.draw(2, kind="prior_holes") else None)
 
     d = env.fresh_dir()
@@ -171,7 +217,9 @@ def run_one(ch, env):
                 arr = prior_sampler(lon, lat)
                 if arr.dtype.kind == "f" and np.all(np.isnan(arr)):
                     continue
-                if update and arr.ndim == 3:
+                if arr.ndim == 3 and arr.shape[2] == 4 and np.all(arr[..., 3] == 0):
+                    continue
+                if update and arr.ndim == 3 and arr.shape[2] == 3:
                     arr = np.dstack([arr, np.full(arr.shape[:2], 255, dtype=np.uint8)])
                 prior_tiles[p] = arr
                 pio.write_image(p, Image.from_array(arr[::-1] if bottom_up else arr), format=override)
@@ -266,7 +314,7 @@ def run_one(ch, env):
                 cur = old
                 for s in samplers:
                     new = s(lon, lat)
-                    if new.ndim == 3:
+                    if new.ndim == 3 and new.shape[2] == 3:
                         new = np.dstack([new, np.full(new.shape[:2], 255, dtype=np.uint8)])
                     cur = merge_expected(cur, new)
                 val = cur
@@ -275,6 +323,8 @@ def run_one(ch, env):
         else:
             val = old
         if val is None or (val.dtype.kind == "f" and np.all(np.isnan(val))):
+            continue
+        if val.ndim == 3 and val.shape[2] == 4 and np.all(val[..., 3] == 0):
             continue
         expected[p] = val
     on_disk = list_tiles(d, fmt)
